@@ -11,6 +11,12 @@ Pipeline (DESIGN.md 7-C07, CONVENTIONS.md):
              checker), next() no-goods have the documented shape, quiescent full assignments satisfy every added clause,
              `false` at root => unsatisfiable (exhaustive DPLL, <= 20 variables), check() = false => clauses + decisions +
              lits unsatisfiable, sampled values are entailed
+     and, for the histories of the "probe" family (a scriptable smt::theory subclass in harness/h_sat.cpp, mirrored by the
+     probe instance pr_propagate / pr_check / ext_conflict of coq/smt/SatCore.v): theory conflicts out of propagate(p) and
+     check(), theory lemmas (theory::record), and conflicts raised from outside propagation through swap_conflict +
+     backtrack_analyze_and_backjump while standing 0, 1, 2 levels above the conflict's highest level (level 0 included) - the
+     declared theory clauses are axioms; after a true answer with an empty queue no clause (added, no-good, theory) is all
+     false; a literal assigned at level 0 is never retracted; an external conflict answering false => unsatisfiable
   6. classify a disagreement: property predicate violated on the implementation => VIOLATION with the history;
              otherwise the model no longer describes the code => corr:sat:... no-failing-input-found
 """
@@ -299,8 +305,10 @@ def run(ctx):
     cov["distinct_nontrivial"] = nontrivial
     cov["k2"] = stats_sum
     cov["input_distribution"] = {"families": fam_count, "ops": op_dist, "skipped_ops": skips, "max_decision_level": max_level}
+    cov["probe_theory"] = {k: stats_sum.get(k, 0) for k in ("theory_clauses", "theory_conflicts", "theory_lemmas", "external_conflicts",
+                                                            "external_conflicts_above_their_level", "external_conflicts_all_root", "quiet_checks")}
     cov["rule"] = ("steered histories of 30-300 operations over 4-30 variables: random 3-CNF at ratio 4.26, mixed 2-5-CNF, pigeonhole fragments, "
-                   "implication chains, duplicated/complementary/constant literals, long (>16 literal) clauses, next()/check()-heavy and deep "
+                   "implication chains, duplicated/complementary/constant literals, long (>16 literal) clauses, probe-theory histories (tc / tx), next()/check()-heavy and deep "
                    "decision stacks; ~4% unsteered operations (precondition skips must agree); non-trivial = at least one learnt clause or no-good")
     cov["timing_s"] = {"generate": round(gen_secs, 1), "total": round(time.time() - t_start, 1)}
     for fam, ls, impl, _ in histories[n_corpus:n_corpus + 3]:
@@ -308,6 +316,9 @@ def run(ctx):
     cov["trusted_base"] += [
         "harness/h_sat.cpp, oracle/sat_main.ml, tools/sat_gen.py, tools/sat_lib.py (drivers, generator, K2 judge incl. a small DPLL used "
         "only to look for counter-models; every model it returns is re-checked by evaluation)",
+        "the theorems of Properties_C07.v are about the operations of [op]; theory::backtrack_analyze_and_backjump (ext_conflict in the "
+        "model) and the scripted probe theory are covered by the exact differential and the K2 judgement only; while no theory clause "
+        "has been declared the oracle runs the proved no-theory instance and the probe instance side by side and requires equal output",
         "std::sort is modelled by a stable insertion sort (libstdc++ below 17 elements); histories are compared only up to the first learnt "
         "clause longer than 17 literals",
         "the theorems hold for histories in which the model does not raise `ub` (C++ undefined behaviour / corrupted watch list); "
